@@ -247,6 +247,24 @@ SortedSeq(S) ==
       Srt(T) == IF T = {} THEN <<>> ELSE LET x == CHOOSE x \in T : \A y \in T : x <= y IN <<x>> \o Srt(T \ {x})
   IN Srt(S)
 
+(* The oldest existing file begins with a fully visible, undamaged continuation frame (Middle / Last): *)
+(* the first frame of that entry was in a file that has been unlinked - a GC pass interrupted between   *)
+(* two unlinks while the unused files held one multi-file entry.                                        *)
+OrphanHead(its, ex) ==
+  ex # {} /\ LET lo == CHOOSE f \in ex : \A g \in ex : f <= g IN
+              \E i \in 1..Len(its) : /\ its[i].file = lo /\ its[i].off = 0 /\ ~its[i].gone
+                                       /\ its[i].dmg = "none" /\ its[i].vis = its[i].n
+                                       /\ ~IsFirstType(its[i].t) /\ its[i].t # 0
+
+(* The file an appended record was written into, as the live code attributes it: the file being       *)
+(* written when its call began (ghost field af of the entry; payload ids are unique per call).  The    *)
+(* attribution rebuilt by a replay is mem[q].recs[i].file.                                             *)
+TrueFile(q, rec) ==
+  LET es == {e \in 1..Len(entries) : entries[e].k = "append" /\ entries[e].q = q /\
+                                       \E j \in 1..Len(entries[e].batch) : entries[e].batch[j][1] = rec.pid}
+  IN IF es = {} THEN rec.file ELSE entries[CHOOSE e \in es : \A d \in es : d <= e].af
+TrueRefs(m) == UNION { {TrueFile(q, m[q].recs[i]) : i \in 1..Len(m[q].recs)} : q \in {q \in Queues : m[q].a} }
+
 (* open: list, (repair: size the newest file), read, replay *)
 Recover(vis, ex, szd0) ==
   IF ex = {} THEN [ok |-> TRUE, m |-> EmptyMem, files |-> {0}, file |-> 0, off |-> 0, fresh |-> TRUE, szd |-> {0}]
@@ -319,7 +337,9 @@ StepGuard(kind) == mode = "Ready" /\ todo # <<>> /\ Ef[1] = kind
 
 StepEntry ==
   /\ StepGuard("ENTRY") /\ Pop
-  /\ entries' = Append(entries, Ef[2])
+  \* af: the file being written when the call began - the file the live code attributes the
+  \* entry's records to (C06's "file into which the record was written", DESIGN 4/C06)
+  /\ entries' = Append(entries, ("af" :> cfile) @@ Ef[2])
   /\ lastOs' = 0
   /\ UNCHANGED <<mem, tracked, wfile, woff, items, exists, sized, dirDurable, buffered, osCnt, mode, done, inflight,
                  pendP, pendW, assigned, batches, wsum, wstart, nops, post, ncrash, verdict, clean, lastRet, lastLoss, cfile, ndamage, damaged, hits, dkinds>>
@@ -588,7 +608,8 @@ Open ==
              /\ mode' = "Ready"
              \* C06 "and after open": the file being written when the GC pass of open begins is the one
              \* recovery resumed the writer in
-             /\ lastRet' = [NoCall EXCEPT !.op = "open"] /\ cfile' = r.file
+             \* (p = 1 marks an image whose oldest file begins with a continuation frame: finding D7)
+             /\ lastRet' = [NoCall EXCEPT !.op = "open", !.p = IF OrphanHead(items, exists) THEN 1 ELSE 0] /\ cfile' = r.file
              \* torn items stay as they are (garbage behind or under the cursor)
              /\ items' = items
   /\ lastOs' = 0
@@ -636,14 +657,20 @@ FilesBound ==
 
 (* the same once the GC pass that ends an open is done - a clean restart or the recovery of any   *)
 (* crash image (C06 "and after open")                                                             *)
-FilesBoundOpen ==
-  (mode = "Ready" /\ todo = <<>> /\ lastRet.op = "open") =>
+(* The bound is taken from where the retained records were really WRITTEN (TrueRefs), not from the     *)
+(* replay's attribution.  FilesBoundOpenStrict fails on the images of finding D7 (MC_D7_selftest.cfg);  *)
+(* FilesBoundOpen is the same statement outside that class.                                            *)
+FilesBoundOpenBody ==
      LET lo == MinOf(exists)
-         refs == QRefs(mem)
+         refs == TrueRefs(mem)
          bound == IF refs = {} THEN cfile ELSE FrMin(MinOf(refs), cfile)
      IN /\ exists = lo..wfile
         /\ tracked = exists
         /\ lo >= bound
+FilesBoundOpenStrict ==
+  (mode = "Ready" /\ todo = <<>> /\ lastRet.op = "open" /\ ~damaged /\ ndamage = 0) => FilesBoundOpenBody
+FilesBoundOpen ==
+  (mode = "Ready" /\ todo = <<>> /\ lastRet.op = "open" /\ lastRet.p = 0 /\ ~damaged /\ ndamage = 0) => FilesBoundOpenBody
 
 (* C13: a rejected or no-op call leaves no trace: when it returns, nothing was written, the cursor, *)
 (* the files and the memory are what they were when it began                                       *)
